@@ -263,7 +263,6 @@ Proof.
   assert (S1 : calls_sub d (yield_state d (callee, req) inv)).
   { unfold yield_state. eapply calls_sub_trans; [apply (sub_cancel_timer d (inv_timer inv))|].
     eapply sub_set_inv. rewrite ct_invs. exact Hi. }
-  destruct (inv_inprogress inv); [split; assumption|].
   destruct (cw_inv _ W _ _ Hi) as (Hb & _).
   split.
   - apply core_drop; [exact W1 | rewrite ys_bycall; exact Hb |].
